@@ -136,11 +136,12 @@ def cmake_defines_to_args(raw: T.List[T.Dict[str, TYPE_var]], permissive: bool =
                 mlog.warning('  - URL: https://mesonbuild.com/CMake-module.html#cross-compilation')
                 mlog.warning('  --> Ignoring this option')
                 continue
-            if isinstance(val, (str, int, float)):
-                res += [f'-D{key}={val}']
-            elif isinstance(val, bool):
+            if isinstance(val, bool):
+                # bool is an int: test it first
                 val_str = 'ON' if val else 'OFF'
                 res += [f'-D{key}={val_str}']
+            elif isinstance(val, (str, int, float)):
+                res += [f'-D{key}={val}']
             else:
                 raise MesonException('Type "{}" of "{}" is not supported as for a CMake define value'.format(type(val).__name__, key))
 
